@@ -1,5 +1,9 @@
 #!/bin/bash
-# Offline setup after a fresh restore: build the Lean models, proofs and driver.
+# Offline setup after a fresh restore: regenerate the translator-tied Lean files from /repo, then build every
+# model, proof and driver (cold: a few minutes on 16 cores; Mathlib is pre-compiled on the toolchain's path).
 set -e
-cd "$(dirname "$0")/lean"
-lake build MG MG.Driver 2>&1 | tail -5
+cd "$(dirname "$0")"
+export PYTHONDONTWRITEBYTECODE=1 PYTHONHASHSEED=0 OMP_NUM_THREADS=1 OPENBLAS_NUM_THREADS=1
+/venv/bin/python -W ignore -m harness.regen_all || echo "regen failed (the checks will regenerate and report)"
+cd lean
+lake build MG MG.Driver MG.DriverEng MG.DriverCtx MG.IO.LockMain 2>&1 | tail -5
